@@ -25,9 +25,24 @@ func extend(id, explanation string, f func(*core.Ctx)) {
 	old := s.Run
 	s.Run = func(c *core.Ctx) {
 		old(c)
-		f(c)
+		guarded(c, id, explanation, f)
 	}
 	s.Explanation = strings.Replace(s.Explanation, " NOT decided", " "+explanation+" NOT decided", 1)
+}
+
+// guarded runs a group of rules; a panic inside it (an anchored function whose shape is not the one the rule
+// was written for, e.g. a changed parameter list) makes that group undecided instead of taking the whole check
+// down.
+func guarded(c *core.Ctx, id, what string, f func(*core.Ctx)) {
+	defer func() {
+		if r := recover(); r != nil {
+			if len(what) > 60 {
+				what = what[:60]
+			}
+			c.Und(id+".panic", "rule group "+what, "-", fmt.Sprintf("the rules could not be evaluated on this tree (checker panic: %v): an anchored function no longer has the shape the rule reads", r))
+		}
+	}()
+	f(c)
 }
 
 func init() {
